@@ -22,9 +22,24 @@ from deepproto.proto.tracepoint.v1.tracepoint_pb2 import TracePointConfig, Metri
 PATH, LINE = 'c17_host.py', 4
 TYPES = ['counter', 'gauge', 'histogram', 'summary']
 EXPR_KINDS = {'unset': None, 'int': 'n', 'float': 'f', 'bool': 'b', 'numstr': 'ns', 'nonnum': 's', 'failing': '1/0',
-              'arith': 'n * 2 + G', 'none': 'nothing', 'list': 'lst'}
+              'arith': 'n * 2 + G', 'none': 'nothing', 'list': 'lst', 'raises_base': 'boom_base()'}
 LABEL_KINDS = ['none', 'static_str', 'static_int', 'static_float', 'static_bool', 'expr', 'expr_global', 'failing']
-HOST_GLOBALS = {'G': 100, '__name__': 'c17_host'}
+class HostBase(BaseException):
+    pass
+
+
+def boom_base():
+    raise HostBase('metric expression raised a BaseException')
+
+
+HOST_GLOBALS = {'G': 100, 'boom_base': boom_base, '__name__': 'c17_host'}
+
+
+class EmptyRegistryProcessor(lab.RecMetricProcessor):
+    """A processor that is falsy (a registry that is empty until it has seen a series): still an active processor."""
+
+    def __len__(self):
+        return 0
 
 
 def frame_values(k):
@@ -156,14 +171,15 @@ class C17(Prop):
                                                       metrics=[to_proto_metric(m) for m in ms])])
         else:
             trig = [build_trigger('tp', PATH, LINE, args, [], [to_code_metric(m, recipe['case']) for m in ms])]
-        procs = [lab.RecMetricProcessor(name='proc%d' % i) for i in range(recipe['nproc'])]
+        procs = [(EmptyRegistryProcessor if (i == 0 and recipe.get('case') == 'upper') else lab.RecMetricProcessor)(
+            name='proc%d' % i) for i in range(recipe['nproc'])]
         handler, cfg, push = lab.make_handler(trig, plugins=list(procs))
         if len(ms) >= 2:
             out.cls('multi_metric')
         if recipe['nproc'] == 0:
             out.cls('zero_processors')
         out.nontrivial = len(ms) >= 2 or recipe['nproc'] >= 2 or any(
-            m['expr'] in ('s', '1/0', 'nothing', 'lst') for m in ms)
+            m['expr'] in ('s', '1/0', 'nothing', 'lst', 'boom_base()') for m in ms)
         fc = int(recipe['fire_count'])
         fired = 0
         late = None
